@@ -19,6 +19,9 @@ NoFaults == {}
 NoOverride == <<>>
 TinyKinds == <<{"iri"}, {"iri"}, {"bn"}, {"dg", "iri"}>>
 TinyKindsO == <<{"iri", "bn"}, {"iri"}, {"iri", "bn", "lit"}, {"dg", "iri", "bn"}>>
+StarKindsS == <<{"iri", "qt"}, {"iri"}, {"bn"}, {}>>             \* reader state graph with quoted triples (generic adapters only):
+StarKindsO == <<{"iri"}, {"iri"}, {"bn", "qt"}, {}>>             \* in subject position, in object position
+SNx == {"x"}
 SN2 == {"x", "y"}
 SP1 == {"a/"}
 SD1 == {"d:a"}
